@@ -214,8 +214,19 @@ func (a *Analyzer) callWrites(in ssa.CallInstruction) map[string]bool {
 }
 
 // termReads: locations whose mutation invalidates the term.
+// walkLive visits the sub-terms that are (re-)evaluated now: frozen pre(...) sub-terms are values and are skipped.
+func walkLive(t *Term, f func(*Term)) {
+	if t.Op == "pre" {
+		return
+	}
+	f(t)
+	for _, a := range t.Args {
+		walkLive(a, f)
+	}
+}
+
 func (a *Analyzer) termReads(t *Term, out map[string]bool) {
-	t.Walk(func(s *Term) {
+	walkLive(t, func(s *Term) {
 		switch s.Op {
 		case "field":
 			if len(s.Args) == 1 && s.Args[0].Op == "this" {
@@ -231,7 +242,13 @@ func (a *Analyzer) termReads(t *Term, out map[string]bool) {
 					out[l] = true
 				}
 			}
+			// a pure (effect-free) function of the state is re-evaluable: its value depends on what it reads.
+			// The result of an effectful call is a value fixed when the call ran (facts about it are dropped when
+			// the same call is executed again, see Flow.transfer).
 			for _, f := range a.funcsByShort()[s.Name] {
+				if !a.effectFree[f] {
+					continue
+				}
 				for l := range a.readsOf(f) {
 					out[l] = true
 				}
